@@ -7,11 +7,11 @@ NAIVE = "sktime.forecasting.naive"
 SPLIT = "sktime.forecasting.model_selection._split"
 
 PROGRAMS = {
-    "quick": [["U1", "P"], ["U0", "P"], ["P", "U1", "P"], ["U1", "U0", "P"], ["U0", "U1", "P"], ["S1"], ["S0"], ["UP1"], ["UP0"], ["U1", "UP1"], ["UP1", "P"]],
-    "thorough": [["U1", "P"], ["U0", "P"], ["P", "U1", "P"], ["P", "U0", "P"], ["U1", "U0", "P"], ["U0", "U1", "P"], ["U1", "U1", "P"], ["U0", "U0", "P"], ["S1"], ["S0"], ["S1", "P"], ["U1", "S0"], ["UP1"], ["UP0"],
+    "quick": [["U1", "P"], ["U0", "P"], ["P", "U1", "P"], ["U1", "U0", "P"], ["U0", "U1", "P"], ["U0", "R1", "P"], ["S1"], ["S0"], ["UP1"], ["UP0"], ["U1", "UP1"], ["UP1", "P"]],
+    "thorough": [["U1", "P"], ["U0", "P"], ["P", "U1", "P"], ["P", "U0", "P"], ["U1", "U0", "P"], ["U0", "U1", "P"], ["U0", "R1", "P"], ["R1", "P"], ["U1", "U1", "P"], ["U0", "U0", "P"], ["S1"], ["S0"], ["S1", "P"], ["U1", "S0"], ["UP1"], ["UP0"],
                  ["U1", "UP1"], ["U0", "UP0"], ["UP1", "P"], ["UP0", "P"], ["UP1", "U1", "P"]],
 }
-KINDS = ["naive-last", "naive-mean-wlnone", "naive-mean-wl2", "member", "member-selffh", "ensemble", "pipeline"]
+KINDS = ["naive-last", "naive-mean-wlnone", "naive-mean-wl2", "member", "member-selffh", "ensemble", "pipeline", "stacking"]
 
 
 def is_nan(x):
@@ -49,7 +49,7 @@ class C10(Harness):
         out = []
         for k in KINDS:
             for prog in PROGRAMS[tier]:
-                if k in ("member", "ensemble", "pipeline") and any(o.startswith("UP") for o in prog):
+                if k in ("member", "ensemble", "pipeline", "stacking") and any(o.startswith("UP") for o in prog):
                     continue  # update_predict of composites: twin comparison needs window forecasters
                 if k == "member-selffh" and not any(o.startswith("UP") for o in prog):
                     continue  # (same as "member" there)
@@ -68,6 +68,9 @@ class C10(Harness):
         increasing(ctx, hs, lo=1)
         ctx.assume(hs[-1] <= 2)
         inp["fh"] = [int(h) for h in hs]
+        if cell["kind"] == "stacking":
+            if not inp["fh_in_fit"] or inp["fh"][-1] > n1 - 1:
+                ctx.assume(False)  # the stacker needs its horizon at fit and a hold-out window of max(fh) points
         # update_predict may be asked for other steps than the horizon known so far (fit / earlier predict)
         inp["fh_up"] = [h + 1 for h in inp["fh"]] if inp["fh_in_fit"] else list(inp["fh"])
         ov = ctx.fresh_int("ov")
@@ -76,6 +79,10 @@ class C10(Harness):
         first = True
         for i, op in enumerate(prog):
             if op == "P":
+                continue
+            if op == "R1":  # a revision-only batch: the last remembered label again, with another value, refitting
+                inp["batches"].append({"ov": 1, "vals": fresh_reals(ctx, "b%d_" % i, 1)})
+                first = False
                 continue
             m = ctx.fresh_int("m%d" % i)
             if op.startswith("UP"):
@@ -111,6 +118,11 @@ class C10(Harness):
         if kind == "ensemble":
             ENS = W.load("sktime.forecasting.compose._ensemble").EnsembleForecaster
             return ENS([("a", NF(strategy="last")), ("b", Member(p=2))])
+        if kind == "stacking":
+            from .stubs import make_regressor
+
+            STK = W.load("sktime.forecasting.compose._stack").StackingForecaster
+            return STK([("a", Member(p=1)), ("b", Member(p=2))], final_regressor=make_regressor(W, log)())
         T, _ = make_transformer(W, log, stateful=True)
         PIPE = W.load("sktime.forecasting.compose._pipeline").TransformedTargetForecaster
         return PIPE([("t", T(tag=1)), ("f", Member(p=3))])
@@ -153,7 +165,7 @@ class C10(Harness):
                     rec["start"] = start
                     nxt = start + len(b["vals"])
                     up = op.endswith("1")
-                    if op in ("U1", "U0"):
+                    if op in ("U1", "U0", "R1"):
                         f.update(yb, update_params=up)
                         twin.update(yb, update_params=up)
                     elif op in ("S1", "S0"):
@@ -219,6 +231,8 @@ class C10(Harness):
                 return F(1, c, c + h)
             if kind == "ensemble":
                 return (mem[offs[-1]] + F(2, c, c + h)) / 2
+            if kind == "stacking":
+                return W.uf("meta_2", [F(1, c, c + h), F(2, c, c + h)], "rr>r")
             return Ti(F(3, c, c + h))
 
         def check_state(st, label_prefix=""):
@@ -254,7 +268,7 @@ class C10(Harness):
             bi += 1
             start = st["start"]
             up = op.endswith("1")
-            if op in ("U1", "U0", "S1", "S0"):
+            if op in ("U1", "U0", "S1", "S0", "R1"):
                 if up and kind == "pipeline":
                     tstate[0] += 1
                 for i, v in enumerate(b["vals"]):
@@ -328,16 +342,19 @@ class C10(Harness):
                         P.eq("remembered-data-is-union-later-wins", v, mem[k])
                 # own cutoff unchanged; later forecasts are made from it
         # composites: inner estimators received every batch (pipeline: transformed)
-        if kind in ("ensemble", "pipeline", "member"):
+        if kind in ("ensemble", "pipeline", "member", "stacking"):
             ups = [e for e in out["log"] if e["op"] == "update"]
-            nb = sum(1 for st in out["steps"] if st["op"] in ("U1", "U0", "S1", "S0") and "raised" not in st)
+            if kind == "stacking":  # two members: the batches reach each of them, in order
+                P.check("composite-propagates-update", len(ups) % 2 == 0 and [e["who"] for e in ups] == [1, 2] * (len(ups) // 2))
+                ups = ups[::2]
+            nb = sum(1 for st in out["steps"] if st["op"] in ("U1", "U0", "S1", "S0", "R1") and "raised" not in st)
             P.check("composite-propagates-update", len(ups) == nb)
             k = 0
             tstate[0] = 0
             for st in out["steps"]:
-                if st["op"] in ("U1", "S1") and kind == "pipeline":
+                if st["op"] in ("U1", "S1", "R1") and kind == "pipeline":
                     tstate[0] += 1  # the batch reaches the forecaster as transformed by the *updated* transformer
-                if st["op"] in ("U1", "U0", "S1", "S0") and "raised" not in st and k < len(ups):
+                if st["op"] in ("U1", "U0", "S1", "S0", "R1") and "raised" not in st and k < len(ups):
                     b = [bb for bb in inp["batches"]][k]
                     e = ups[k]
                     k += 1
